@@ -574,7 +574,20 @@ impl endpoint::Session for ListenerSession {
         transfer: Transfer,
         payload: Payload,
     ) -> Result<Option<Disposition>, Self::Error> {
-        match self.session.on_incoming_transfer(transfer, payload).await {
+        self.count_incoming_transfer();
+        self.deliver_incoming_transfer(transfer, payload).await
+    }
+
+    fn count_incoming_transfer(&mut self) {
+        self.session.count_incoming_transfer()
+    }
+
+    async fn deliver_incoming_transfer(
+        &mut self,
+        transfer: Transfer,
+        payload: Payload,
+    ) -> Result<Option<Disposition>, Self::Error> {
+        match self.session.deliver_incoming_transfer(transfer, payload).await {
             Ok(result) => Ok(result),
             Err(SessionInnerError::UnattachedHandle) => {
                 // Same pipelining issue as on_incoming_flow: the remote peer
